@@ -94,22 +94,23 @@ class UnorderedConverter(XMLSchemaConverter):
                 attributes[ns_name] = value
             elif not isinstance(value, MutableSequence) or not value:
                 ns_name = self.unmap_qname(name, xmlns=self.get_xmlns_from_data(value))
-                content_lu[ns_name] = [value]
-            elif isinstance(value[0], (MutableMapping, MutableSequence)):
-                ns_name = self.unmap_qname(name, xmlns=self.get_xmlns_from_data(value[0]))
-                content_lu[ns_name] = value
+                content_lu.setdefault(ns_name, []).append(value)
+            elif any(isinstance(item, (MutableMapping, MutableSequence)) for item in value):
+                for item in value:
+                    ns_name = self.unmap_qname(name, xmlns=self.get_xmlns_from_data(item))
+                    content_lu.setdefault(ns_name, []).append(item)
             else:
                 # `value` is a list but not a list of lists or list of dicts.
                 ns_name = self.unmap_qname(name)
                 xsd_child = xsd_element.match_child(ns_name)
                 if xsd_child is not None:
                     if xsd_child.type and xsd_child.type.is_list():
-                        content_lu[ns_name] = [value]
+                        content_lu.setdefault(ns_name, []).append(value)
                     else:
-                        content_lu[ns_name] = value
+                        content_lu.setdefault(ns_name, []).extend(value)
                 elif self.attr_prefix == '' and ns_name in xsd_element.attributes:
                     attributes[ns_name] = value
                 else:
-                    content_lu[ns_name] = value
+                    content_lu.setdefault(ns_name, []).extend(value)
 
         return ElementData(tag, text, content_lu, attributes, xmlns)
